@@ -187,7 +187,7 @@ pub fn check_files(files: &[(String, String)], s: &mut Src, st: &mut Stats) -> R
     }
     // now and then: another process
     let every = if std::env::var("VERIF_TIER_NAME").as_deref() == Ok("thorough") { 25 } else { 80 };
-    if s.below(every) == 0 {
+    if !s.exhausted() && std::env::var("VERIF_NO_XPROC").is_err() && s.below(every) == 0 {
         cross_process(files, &base)?;
         st.add("cross_process_comparisons", 1);
     }
